@@ -203,6 +203,8 @@ def connect_case(scheme, popt, envset, exempt_via, reply=b"HTTP/1.1 200 Connecti
             auth = ("user", None)
         elif popt == "userpass":
             auth = ("user", "pa:ss")
+        elif popt == "long":
+            auth = ("user-" + "n" * 45, "pw-" + "w" * 70)  # > 57 and > 114 bytes of credentials: several base64 lines if a line-wrapping encoder is used
         if auth:
             opts["http_proxy_auth"] = auth
     envd = {k: envurl for k in envset}
@@ -453,7 +455,7 @@ def run_task(desc):
             res["samples"].append({"host": host, "no_proxy_entries": E[:4] + E[40:44] + E[-3:]})
     elif desc["part"] == "connect":
         for scheme in ("ws", "wss"):
-            for popt in (None, "plain", "user", "userpass"):
+            for popt in (None, "plain", "user", "userpass", "long"):
                 for r in range(0, 5):
                     for envset in itertools.combinations(ENVVARS[:4], r):
                         for ex in (None, "option", "env"):
